@@ -165,11 +165,10 @@ end Bound
 
 /-- C03 `stack_bound`, composed: there is a bound `B` depending on the grammar only such that
 every stack the parse loop reaches has at most `(|tokens| + 1) · B` frames -/
-theorem stack_bound_of_built {inp : CtorIn} {P : Parser} (hB : Built inp P) :
+theorem stack_bound_of_built {P : Parser} (hB : Core P) (hnd : (P.prods.map (·.1)).Nodup) :
     ∃ B, ∀ (raw : List (List Char × List Char)) (n : Nat) (st : List (Frame Sym)),
       iter P.cfg (P.tokens raw) n (initStack startSym P.start endSym) = .cont st →
         st.length ≤ ((P.tokens raw).length + 1) * B := by
-  obtain ⟨hnd, _⟩ := built_struct hB
   obtain ⟨rank, hC⟩ := tctxOK_of_built hB hnd
   let rk : Sym → Nat := fun s => if s = startSym then rank P.start + 1 else rank s
   let R := maxOf ((startSym :: P.start :: endSym :: psyms P.prods).map rk)
@@ -199,10 +198,9 @@ theorem stack_bound_of_built {inp : CtorIn} {P : Parser} (hB : Built inp P) :
 
 /-- C03, composed: on every token list `parse` returns a tree or raises `ParsingError`
 (for every sufficiently large fuel; never out of fuel, never an `IndexError`) -/
-theorem parse_total_of_built {inp : CtorIn} {P : Parser} (hB : Built inp P)
-    (raw : List (List Char × List Char)) :
+theorem parse_total_of_built {P : Parser} (hB : Core P) (hnd : (P.prods.map (·.1)).Nodup)
+    (hsuf : endSym ∉ P.suffix) (raw : List (List Char × List Char)) :
     ∃ k, ∀ fuel, k ≤ fuel → (∃ t, P.parse raw fuel = .ok t) ∨ P.parse raw fuel = .error .parsingError := by
-  obtain ⟨hnd, hsuf⟩ := built_struct hB
   obtain ⟨k, hk⟩ := parse_terminates_of_built hB hnd raw
   refine ⟨k, fun fuel hf => ?_⟩
   cases hres : P.parse raw fuel with
